@@ -77,7 +77,11 @@ func c14Case(rng *rand.Rand) cliCase {
 		for i := 0; i < n; i++ {
 			sels = append(sels, c14SelPool[rng.IntN(len(c14SelPool))])
 		}
-		return cliCase{prog: progs[rng.IntN(len(progs))], inputs: [][]byte{c14Doc(rng)}, sels: sels, noFile: true, kind: "modify-root", roSel: true}
+		in := c14Doc(rng)
+		for k := rng.IntN(3); k > 0; k-- { // 0-2 further values in the same input
+			in = append(append(in, []string{"\n", " ", "\n\n"}[rng.IntN(3)]...), c14Doc(rng)...)
+		}
+		return cliCase{prog: progs[rng.IntN(len(progs))], inputs: [][]byte{in}, sels: sels, noFile: true, kind: "modify-root", roSel: true}
 	}
 }
 
@@ -293,7 +297,7 @@ func c14Run(c *Case) {
 		}
 	}
 	// R5: -r E behaves as BEGINFILE { $ = E } (side-effect-free selectors, programs that do not inspect $ in BEGINFILE/ENDFILE)
-	if cc.roSel && len(cc.sels) == 1 && len(cc.inputs) == 1 {
+	if cc.roSel && len(cc.sels) == 1 {
 		eq := cc
 		eq.sels = nil
 		eq.prog = "BEGINFILE { $ = " + cc.sels[0] + " } " + cc.prog
@@ -334,6 +338,41 @@ func c14Run(c *Case) {
 				}
 			}
 			c.Held()
+		}
+	}
+	// R7: files, the values inside a file, and the selectors are processed in the order given, each exactly once:
+	// for a program without state across values the output is the concatenation of the outputs per value
+	if cc.roSel && !strings.Contains(cc.prog, "END") && !strings.Contains(cc.prog, "c++") && !strings.Contains(cc.prog, "count") {
+		var vals [][]byte
+		for _, in := range cc.inputs {
+			vals = append(vals, splitTopLevel(in)...)
+		}
+		if len(vals) >= 2 {
+			noO := cfg
+			noO.omode = ""
+			whole := runCfg(c, cc, noO, dir)
+			var sb strings.Builder
+			allOK := whole.exit == 0 && whole.fault == ""
+			for _, v := range vals {
+				one := cc
+				one.inputs = [][]byte{v}
+				cf := noO
+				o := runCfg(c, one, cf, dir)
+				if o.exit != 0 || o.fault != "" {
+					allOK = false
+					break
+				}
+				sb.WriteString(o.stdout)
+			}
+			c.Count("whole_run_vs_value_by_value")
+			c.CountN("values_in_value_by_value_runs", len(vals))
+			if allOK {
+				if whole.stdout != sb.String() {
+					c.Violation(fmt.Sprintf("%s: %d input values with %d selector(s): the whole run prints %q, the values one by one print %q | program %s", cellName, len(vals), len(cc.sels), clip(whole.stdout, 100), clip(sb.String(), 100), cc.prog), nil, rp)
+					return
+				}
+				c.Held()
+			}
 		}
 	}
 	if c.Idx%300 == 2 {
@@ -435,7 +474,7 @@ func c14ErrorPaths(c *Case) {
 func init() {
 	register(&Prop{
 		ID: "C14", Level: "exploration",
-		Rule: "each case is a (program, inputs, selectors) triple from the pools of C02/C07/C09 plus failing programs, malformed inputs, JSONL and root-modifying programs, run in one cell of the 54-cell configuration matrix {inline, -f} x {stdin, 1 file, 2-3 files} x {0, 1, 2 -r} x {no -o, -o -, -o FILE} (cells are visited round-robin by case index). Relations checked on the real binary: (R1) stdout, -o bytes and exit class equal the library's result on the same tree (files and selectors in the same order; -o with several inputs refused); (R2) -f FILE == inline; (R3) stdin == the same bytes in a file for programs that do not mention $file; (R4) the bytes `-o -` prints after the program's own output are exactly what `-o FILE` writes; (R5) `-r E` == `BEGINFILE { $ = E }` for side-effect-free selectors (members present / missing / out of range, method calls, literals) and programs that modify $ only in pattern rules, including what -o writes. Enumerated: 16 error paths and orderings (missing program / input files, directory as input, unwritable -o, -o with two files, -o without any value, file and selector order, error after output) and strace-injected EIO. Non-trivial = the case produces output or an -o document; distinct by cell+program+inputs+selectors.",
+		Rule: "each case is a (program, inputs, selectors) triple from the pools of C02/C07/C09 plus failing programs, malformed inputs, JSONL and root-modifying programs, run in one cell of the 54-cell configuration matrix {inline, -f} x {stdin, 1 file, 2-3 files} x {0, 1, 2 -r} x {no -o, -o -, -o FILE} (cells are visited round-robin by case index). Relations checked on the real binary: (R1) stdout, -o bytes and exit class equal the library's result on the same tree (files and selectors in the same order; -o with several inputs refused); (R2) -f FILE == inline; (R3) stdin == the same bytes in a file for programs that do not mention $file; (R4) the bytes `-o -` prints after the program's own output are exactly what `-o FILE` writes; (R5) `-r E` == `BEGINFILE { $ = E }` for side-effect-free selectors (members present / missing / out of range, method calls, literals) and programs that modify $ only in pattern rules, including what -o writes, also over several files and several values per input; (R6) two selectors print what each prints alone, one after the other, and -o writes what the last alone writes; (R7) for programs without state across values, a run over several files / several values per input / several selectors prints exactly the concatenation of the runs value by value (each processed once, in order). Enumerated: 16 error paths and orderings (missing program / input files, directory as input, unwritable -o, -o with two files, -o without any value, file and selector order, error after output) and strace-injected EIO. Non-trivial = the case produces output or an -o document; distinct by cell+program+inputs+selectors.",
 		NumCases: func(tier string) int {
 			if tier == "thorough" {
 				return 1 + 54*400
@@ -450,4 +489,42 @@ func init() {
 		},
 		Assumptions: []string{"programs are passed after `--` (a program starting with '-' is otherwise taken as a flag)", "the library run on the same tree is the reference for R1; R2-R5 compare the binary with itself"},
 	})
+}
+
+// splitTopLevel cuts a text holding several whitespace-separated JSON documents into the documents.
+func splitTopLevel(in []byte) [][]byte {
+	var out [][]byte
+	depth, start, inStr, esc := 0, -1, false, false
+	for i, b := range in {
+		if inStr {
+			switch {
+			case esc:
+				esc = false
+			case b == '\\':
+				esc = true
+			case b == '"':
+				inStr = false
+			}
+			continue
+		}
+		switch b {
+		case '"':
+			inStr = true
+			if start < 0 {
+				start = i
+			}
+		case '{', '[':
+			if start < 0 {
+				start = i
+			}
+			depth++
+		case '}', ']':
+			depth--
+			if depth == 0 && start >= 0 {
+				out = append(out, in[start:i+1])
+				start = -1
+			}
+		}
+	}
+	return out
 }
